@@ -404,3 +404,45 @@ func protoreflectMsg(m protoreflect.Message) protoreflect.Value {
 }
 func protoreflectU32(v uint32) protoreflect.Value { return protoreflect.ValueOfUint32(v) }
 func protoreflectI32(v int32) protoreflect.Value  { return protoreflect.ValueOfInt32(v) }
+
+// PNormEmpty clears (recursively) singular message fields that are present but empty. proto/generic
+// deliberately removes a sub-message whose last field was unset ("length == 0 means had been deleted all
+// the data in the field"), so present-but-empty and absent sub-messages are not distinguished by the C10 oracle.
+func PNormEmpty(m protoreflect.Message) {
+	m.Range(func(fd protoreflect.FieldDescriptor, v protoreflect.Value) bool {
+		switch {
+		case fd.IsMap():
+			if fd.MapValue().Kind() == protoreflect.MessageKind {
+				v.Map().Range(func(_ protoreflect.MapKey, mv protoreflect.Value) bool {
+					PNormEmpty(mv.Message())
+					return true
+				})
+			}
+		case fd.IsList():
+			if fd.Kind() == protoreflect.MessageKind {
+				for i := 0; i < v.List().Len(); i++ {
+					PNormEmpty(v.List().Get(i).Message())
+				}
+			}
+		case fd.Kind() == protoreflect.MessageKind:
+			PNormEmpty(v.Message())
+			empty := true
+			v.Message().Range(func(protoreflect.FieldDescriptor, protoreflect.Value) bool { empty = false; return false })
+			if empty && len(v.Message().GetUnknown()) == 0 {
+				m.Clear(fd)
+			}
+		}
+		return true
+	})
+}
+
+// PUnmarshal is proto.Unmarshal that reports a panic of the reference decoder (protobuf-go's dynamicpb
+// panics on some malformed map entries) as a rejection.
+func PUnmarshal(b []byte, m proto.Message) (err error) {
+	defer func() {
+		if r := recover(); r != nil {
+			err = fmt.Errorf("reference decoder panicked on this input: %v", r)
+		}
+	}()
+	return proto.Unmarshal(b, m)
+}
